@@ -20,6 +20,6 @@ Prefer a subtle, small diff in the code the property actually depends on. Read t
 
 Deliverables in /tmp/mut-{tag}-out/:
  1. patch.diff — `git -C /tmp/mut-{tag} diff` of your change (source change only; do not include the demo in the patch);
- 2. a demonstration: either demo.rs (a self-contained Rust integration test file that can be copied to tests/demo_{tag.lower()}.rs and run with `cargo test --offline --test demo_{tag.lower()}` [add `--features cli` and say so if it needs the CLI binary]) or demo.sh (a shell script using the built CLI) that FAILS with your change and PASSES on the unchanged project. Verify both directions yourself (`git stash` / `git stash pop`, or apply/reverse the patch);
+ 2. a demonstration: either demo.rs (a self-contained Rust integration test file that can be copied to tests/demo_{tag.lower()}.rs and run with `cargo test --offline --test demo_{tag.lower()}` [add `--features cli` and say so if it needs the CLI binary]) or demo.sh (a shell script using the built CLI) that FAILS with your change and PASSES on the unchanged project. Verify both directions yourself by reversing and re-applying the patch (`git diff > /tmp/mut-{tag}-out/patch.diff; git apply -R /tmp/mut-{tag}-out/patch.diff; ...; git apply /tmp/mut-{tag}-out/patch.diff`). NEVER use `git stash`: the stash is shared between all worktrees of the repository and other agents are working in sibling worktrees;
  3. meta.json — {{"property": "{pid}", "summary": "...one paragraph: what was changed and why it breaks the property...", "needs_to_manifest": "...the specific input/sequence/configuration needed...", "files_changed": [...], "demo": "how to run it and what it prints with/without the change", "test_suite": "exact command you ran and its summary line (N passed)"}}.
 When finished: leave the worktree as is (with your change applied and the demo file NOT committed), delete your build output (`rm -rf /tmp/mut-{tag}-target`), and reply with a short summary (what you changed, what it needs to manifest, test-suite result, demo result both ways). If after honest effort you cannot find a change that passes the existing suite, say so and deliver your best attempt with the failing test names in meta.json.""")
